@@ -80,13 +80,13 @@ fn bounds(prop: &str, tier: Tier) -> Bounds {
     let q = tier == Tier::Quick;
     use Family::*;
     // (family, size level, also check the children one ply below)
-    let thorough_families = vec![(Ep, 1, true), (Castle, 1, true), (Promo, 1, true), (EpCheck, 1, true), (PromoCheck, 1, true), (Three, 0, true)];
+    let thorough_families = vec![(PawnPush, 1, true), (Ep, 1, true), (Castle, 1, true), (Promo, 1, true), (EpCheck, 1, true), (PromoCheck, 1, true), (Three, 0, true)];
     match prop {
         "C01" => Bounds {
             start_depth: if q { 4 } else { 6 },
             perft_depth: if q { 2 } else { 4 },
             scenario_depth: if q { 2 } else { 3 },
-            families: if q { vec![(Ep, 0, false), (Castle, 0, false), (Promo, 0, false)] } else { thorough_families },
+            families: if q { vec![(PawnPush, 0, true), (Ep, 0, false), (Castle, 0, false), (Promo, 0, false)] } else { thorough_families },
             sweep_stride: 64,
         },
         "C02" => Bounds {
@@ -94,9 +94,9 @@ fn bounds(prop: &str, tier: Tier) -> Bounds {
             perft_depth: if q { 2 } else { 3 },
             scenario_depth: if q { 2 } else { 3 },
             families: if q {
-                vec![(EpCheck, 0, false), (PromoCheck, 0, false), (Castle, 0, false)]
+                vec![(PawnPush, 0, true), (EpCheck, 0, false), (PromoCheck, 0, false), (Castle, 0, false)]
             } else {
-                vec![(Ep, 1, false), (Castle, 1, false), (Promo, 1, false), (EpCheck, 1, false), (PromoCheck, 1, false), (Three, 0, false)]
+                vec![(PawnPush, 1, true), (Ep, 1, false), (Castle, 1, false), (Promo, 1, false), (EpCheck, 1, false), (PromoCheck, 1, false), (Three, 0, false)]
             },
             sweep_stride: 256,
         },
@@ -104,14 +104,14 @@ fn bounds(prop: &str, tier: Tier) -> Bounds {
             start_depth: if q { 4 } else { 6 },
             perft_depth: if q { 2 } else { 4 },
             scenario_depth: if q { 2 } else { 3 },
-            families: if q { vec![(EpCheck, 0, true), (PromoCheck, 0, true), (Castle, 0, true)] } else { thorough_families },
+            families: if q { vec![(PawnPush, 0, true), (EpCheck, 0, true), (PromoCheck, 0, true), (Castle, 0, true)] } else { thorough_families },
             sweep_stride: 64,
         },
         "C04" => Bounds {
             start_depth: if q { 5 } else { 6 },
             perft_depth: if q { 3 } else { 4 },
             scenario_depth: if q { 3 } else { 4 },
-            families: if q { vec![(Castle, 0, true), (EpCheck, 0, true), (PromoCheck, 0, true)] } else { thorough_families },
+            families: if q { vec![(PawnPush, 0, true), (Castle, 0, true), (EpCheck, 0, true), (PromoCheck, 0, true)] } else { thorough_families },
             sweep_stride: 64,
         },
         _ => Bounds {
@@ -163,7 +163,8 @@ pub fn run(prop: &str, args: &Args) -> i32 {
         child_props.full_sweep = false;
         let mut root_props = props;
         root_props.full_sweep = false;
-        let t = run_family(*fam, *level, &root_props, if *children { Some(&child_props) } else { None }, args.tier == Tier::Quick && prop != "C01", &report, &mut samples);
+        let special_only = args.tier == Tier::Quick && prop != "C01" && *fam != Family::PawnPush;
+        let t = run_family(*fam, *level, &root_props, if *children { Some(&child_props) } else { None }, special_only, &report, &mut samples);
         fam_json.push(json!({"family": format!("{fam:?}"), "level": level, "transitions_restricted_to_special_moves": args.tier == Tier::Quick && prop != "C01", "positions": t.family_positions, "states_checked": t.states, "transitions": t.transitions, "rejected_as_invalid": t.family_rejected_invalid}));
         totals.merge(&t);
         eprintln!("[{prop}] family {fam:?}/{level} done: {} positions, {:.1}s", t.family_positions, report.start.elapsed().as_secs_f64());
